@@ -506,6 +506,37 @@ func runC03(c *Ctx) {
 		}
 	}
 	c.min("R03.8", 6)
+	// path parameters are bound from the route parameters the router decoded (PathUnescape, once)
+	rulePathValuesDecodedOnce(c, "R03.7")
+	// the last occurrence wins for scalars: the text bindValue hands on is data[len(data)-1]
+	{
+		bv := p.Fn("(*rt/middleware.untypedParamBinder).bindValue")
+		data := paramOf(bv, 0)
+		n := 0
+		for _, ci := range callsIn(bv, "(*rt/middleware.untypedParamBinder).setFieldValue") {
+			_, a := callArgs(ci.Common())
+			for _, o := range originsOf(a[2]) {
+				if k, isK := constString(o.V); isK && k == "" {
+					continue
+				}
+				n++
+				okLast := false
+				if ad, isLd := derefLoad(o.V); isLd {
+					if ia, isIA := ad.(*ssa.IndexAddr); isIA && ia.X == ssa.Value(data) {
+						if bo, isBo := ia.Index.(*ssa.BinOp); isBo && bo.Op == token.SUB {
+							if k, isK := constInt(bo.Y); isK && k == 1 {
+								if l := asCall(bo.X); l != nil && calleeName(&l.Call) == "builtin len" && l.Call.Args[0] == ssa.Value(data) {
+									okLast = true
+								}
+							}
+						}
+					}
+				}
+				c.obI("R03.7", ci, "scalar-takes-last-occurrence", okLast, "a scalar parameter is bound from the LAST occurrence of its key: the text handed to setFieldValue is data[len(data)-1]", "the text bound is "+describe(o.V))
+			}
+		}
+		c.obF("R03.7", bv, "scalar-text-selected", n >= 1, "bindValue selects one occurrence of a scalar parameter", "")
+	}
 }
 
 // guardedByNoKnownType: r is reachable only along paths that never took a `tpe == "<const>"` true edge.
